@@ -14,6 +14,13 @@ Import RecordSetNotations.
 Open Scope N_scope.
 Ltac Zify.zify_post_hook ::= Z.div_mod_to_equations.
 
+(* finish_obj removes the by-id slot only if it still holds this very transaction *)
+Ltac by_id_cases :=
+  match goal with
+  | |- context [match ?X !! ?mid with Some _ => _ | None => _ end] =>
+    let g' := fresh "g'" in destruct (X !! mid) as [g'|]; [destruct (g' =? _)|]
+  end.
+
 (* ================================================================== lists of timers *)
 
 Lemma filter_true {A} (l : list A) : List.filter (fun _ => true) l = l.
@@ -406,12 +413,12 @@ Proof.
     - intros tm g0 mq c _ _ _ Ho. rewrite Eo in Ho. apply lookup_delete_Some in Ho. destruct Ho as [_ Ho]. eauto. }
   destruct t as [mq a|mid tid|mid tid|mid qos st data snpub n].
   - apply Hcommon; try reflexivity. left. reflexivity.
-  - apply Hcommon; try reflexivity. right. split; [reflexivity|]. intros Hg.
-    destruct (ti_conn _ _ _ _ _ _ _ H g Hg) as (_ & (mq & c & A) & _). congruence.
-  - apply Hcommon; try reflexivity. right. split; [reflexivity|]. intros Hg.
-    destruct (ti_conn _ _ _ _ _ _ _ H g Hg) as (_ & (mq & c & A) & _). congruence.
-  - apply Hcommon; try reflexivity. right. split; [reflexivity|]. intros Hg.
-    destruct (ti_conn _ _ _ _ _ _ _ H g Hg) as (_ & (mq & c & A) & _). congruence.
+  - by_id_cases; apply Hcommon; try reflexivity; right; (split; [reflexivity|]); intros Hg;
+    destruct (ti_conn _ _ _ _ _ _ _ H g Hg) as (_ & (mq & c & A) & _); congruence.
+  - by_id_cases; apply Hcommon; try reflexivity; right; (split; [reflexivity|]); intros Hg;
+    destruct (ti_conn _ _ _ _ _ _ _ H g Hg) as (_ & (mq & c & A) & _); congruence.
+  - by_id_cases; apply Hcommon; try reflexivity; right; (split; [reflexivity|]); intros Hg;
+    destruct (ti_conn _ _ _ _ _ _ _ H g Hg) as (_ & (mq & c & A) & _); congruence.
 Qed.
 
 (* RetryTransaction.Proceed: new data, retry counter 0, the old timer is replaced *)
@@ -858,10 +865,14 @@ Proof.
     destruct t as [| | |mid qos st data snpub n]; try (apply pt_ok, H).
     destruct (retry_count cfg <? n + 1); [apply pt_ok; ti_tac|]. cbv zeta.
     match goal with |- PT (match ?d with RsSn _ => _ | RsAck _ _ => _ end) => set (data' := d) end.
-    match goal with |- context [arm (set_obj s g ?T <| gw_buffer := ?bf |>) (TmRetry g) ?d] =>
-      assert (H1 : TI' (arm (set_obj s g T <| gw_buffer := bf |>) (TmRetry g) d)) end.
-    { eapply TI_retry_arm; [exact H|exact Hobj|]. subst data'. destruct data as [pk|ak m]; [exact I|].
-      split; [exact I|]. specialize (Hr g mid qos st ak m snpub n eq_refl Hobj). lia. }
+    match goal with |- context [arm ?S0 (TmRetry g) ?d] =>
+      assert (H1 : TI' (arm S0 (TmRetry g) d)) end.
+    { subst data'. destruct data as [pk|ak m].
+      - eapply TI_retry_arm; [exact H|exact Hobj|exact I].
+      - match goal with |- TI' (arm (set_obj s g ?T) _ ?d) =>
+          change (TI' (arm (set_obj s g T <| gw_buffer := gw_buffer (set_obj s g T) |>) (TmRetry g) d)) end.
+        eapply TI_retry_arm; [exact H|exact Hobj|].
+        split; [exact I|]. specialize (Hr g mid qos st ak m snpub n eq_refl Hobj). lia. }
     clearbody data'. destruct data' as [pk|ak m]; [|apply pt_mq_send, H1].
     match goal with |- context [sn_send_owned ?S0 ?ow pk] =>
       pose proof (pt_sn_send_owned S0 ow pk H1) as HP; destruct (sn_send_owned S0 ow pk) as [[s1 o] [|e]] end.
@@ -894,7 +905,7 @@ Proof. intros H. destruct H. repeat split; assumption. Qed.
 
 Lemma finish_obj_tb a s g : TB a s -> TB a (finish_obj s g).
 Proof.
-  unfold finish_obj. destruct (gw_objs s !! g) as [t|]; [|exact (fun H => H)]. destruct t; exact (fun H => H).
+  unfold finish_obj. destruct (gw_objs s !! g) as [t|]; [|exact (fun H => H)]. destruct t; try by_id_cases; exact (fun H => H).
 Qed.
 
 Lemma begin_end_spec a s c x y :
@@ -1000,7 +1011,7 @@ Lemma finish_obj_connect s g :
   (forall mq a, gw_objs s !! g <> Some (TxConnect mq a)) -> gw_connect (finish_obj s g) = gw_connect s.
 Proof.
   intros H. unfold finish_obj. destruct (gw_objs s !! g) as [t|] eqn:E; [|reflexivity].
-  destruct t; try reflexivity. exfalso. eapply H. reflexivity.
+  destruct t; try by_id_cases; try reflexivity. exfalso. eapply H. reflexivity.
 Qed.
 
 Lemma sn_send_owned_fields s ow p :
@@ -1035,7 +1046,7 @@ Qed.
 
 Lemma finish_obj_connect_cases s g : gw_connect (finish_obj s g) = gw_connect s \/ gw_connect (finish_obj s g) = None.
 Proof.
-  unfold finish_obj. destruct (gw_objs s !! g) as [t|]; [|left; reflexivity]. destruct t; cbn; auto.
+  unfold finish_obj. destruct (gw_objs s !! g) as [t|]; [|left; reflexivity]. destruct t; try by_id_cases; cbn; auto.
 Qed.
 
 Lemma fire_end_tb cfg a s k S o c :
